@@ -110,7 +110,9 @@ class InteractiveParser:
         # and are unnecessarily slow.
         conf_no_callbacks.callbacks = {}
         for t in self.choices():
-            if t.isupper(): # is terminal?
+            # Rule names always contain a lower-case letter. The name of a terminal may have no cased
+            # character at all (anonymous terminals for "__", or for literals in a caseless script)
+            if t == t.upper(): # is terminal?
                 new_cursor = self.copy(deepcopy_values=False)
                 new_cursor.parser_state.parse_conf = conf_no_callbacks
                 try:
